@@ -199,6 +199,12 @@ TraceEnd ==
   /\ (res.P = "ok" /\ res.V = "ok" /\ wire = sent) => Ev.sync \in {"same", "skip"}     \* skip: not measured (batch members)
   /\ UNCHANGED vars
 
+\* the prover's assignment as read through the hook: every gate is (left, right, output) of the specification's assignment (C16)
+TraceGates ==
+  /\ IsEvent("gates") /\ ~degen
+  /\ CmpH => Ev.vals = [i \in 1 .. PLen(cs.P) |-> << cs.P.aL[i], cs.P.aR[i], cs.P.aO[i] >>]
+  /\ UNCHANGED vars
+
 \* decoding of a tampered encoding failed: the verifier never ran
 TraceDecode == IsEvent("decode") /\ ~degen /\ UNCHANGED vars
 
@@ -216,16 +222,20 @@ TraceBatch ==
      \/ /\ Len(pool) = Ev.n /\ Len(Ev.alphas) = Ev.n
         \* exactly one weight per instance is drawn - after every instance's scalars were computed, so none on an early error
         /\ Ev.rng_bytes = (IF \E i \in 1 .. Len(pool) : pool[i].alg = << >> THEN 0 ELSE Ev.rng_bytes_expected)
-        /\ Ev.res = BatchVerdict(pool, Ev.alphas)
+        \* the batch accepts exactly when every member was accepted on its own (the members' own recorded verdicts), or - a small-group
+        \* coincidence - exactly as the specification's weighted sum of the members' residuals says
+        /\ \/ (Ev.res = "ok") <=> (\A i \in 1 .. Len(pool) : pool[i].ores = "ok")
+           \/ Ev.res = BatchVerdict(pool, Ev.alphas)
+        /\ (Ev.res = "ok" /\ \E i \in 1 .. Len(pool) : pool[i].ores # "ok") => Ev.res = BatchVerdict(pool, Ev.alphas)
   /\ pool' = << >> /\ UNCHANGED << vars, obs >>
 
 TraceNext ==
   \/ TraceSetup /\ obs' = NoObs /\ UNCHANGED pool
-  \/ (TraceNew \/ TraceCall \/ TraceProve1 \/ TraceVerify1 \/ TraceWire \/ TraceDecode \/ TraceSkip)
+  \/ (TraceNew \/ TraceCall \/ TraceProve1 \/ TraceVerify1 \/ TraceWire \/ TraceDecode \/ TraceGates \/ TraceSkip)
        /\ UNCHANGED << obs, pool >>
   \/ TraceEnd /\ UNCHANGED obs
-       /\ pool' = IF res.V = "" THEN pool ELSE Append(pool, [res |-> res.V, alg |-> out.ref, degen |-> FALSE])
-  \/ (degen /\ IsEvent("end") /\ UNCHANGED << vars, obs >> /\ pool' = Append(pool, [res |-> "", alg |-> << >>, degen |-> TRUE]))
+       /\ pool' = IF res.V = "" THEN pool ELSE Append(pool, [res |-> res.V, alg |-> out.ref, degen |-> FALSE, ores |-> obs.vres])
+  \/ (degen /\ IsEvent("end") /\ UNCHANGED << vars, obs >> /\ pool' = Append(pool, [res |-> "", alg |-> << >>, degen |-> TRUE, ores |-> obs.vres]))
   \/ (TraceProve2 \/ TraceProve) /\ obs' = [obs EXCEPT !.pres = Ev.res] /\ UNCHANGED pool
   \/ (TraceVerify2 \/ TraceVerify) /\ obs' = [obs EXCEPT !.vres = Ev.res] /\ UNCHANGED pool
   \/ TraceBatchBegin \/ TraceBatch
